@@ -54,10 +54,29 @@ def _prove_pivots(pc, g, pivots, timeout_ms):
   """∀i. body(i) proved by skolemising i and splitting on its position relative to the
   pivot terms named by the contract (i < p, i = p, i > p): an exhaustive case split."""
   import itertools
-  if not (z3.is_quantifier(g) and g.is_forall() and g.num_vars() == 1
-          and g.var_sort(0) == z3.IntSort() and pivots):
+  if not (z3.is_quantifier(g) and g.is_forall() and g.num_vars() == 1 and pivots):
     return None
   _sk[0] += 1
+  if g.var_sort(0) == Val:
+    # a quantified *key*: split on its constructor and on equality with the named keys
+    vp = [p for p in pivots if p.sort() == Val]
+    sk = z3.Const(f'skv!{_sk[0]}', Val)
+    body = z3.substitute_vars(g.body(), sk)
+    last = None
+    shapes = [is_VInt(sk), is_VStr(sk), z3.And(z3.Not(is_VInt(sk)), z3.Not(is_VStr(sk)))]
+    for shape in shapes:
+      for combo in itertools.product((True, False), repeat=len(vp)):
+        lits = [shape] + [(sk == p) if c else (sk != p) for p, c in zip(vp, combo)]
+        r, s = _check(list(pc) + lits, body, timeout_ms)
+        last = s
+        if r != z3.unsat:
+          return r, s
+    return z3.unsat, last
+  if g.var_sort(0) != z3.IntSort():
+    return None
+  pivots = [p for p in pivots if p.sort() == z3.IntSort()]
+  if not pivots:
+    return None
   sk = z3.Int(f'sk!{_sk[0]}')
   body = z3.substitute_vars(g.body(), sk)
   last = None
